@@ -5,6 +5,7 @@ package main
 
 import (
 	"bufio"
+	"encoding/base64"
 	"encoding/json"
 	"fmt"
 	"io"
@@ -22,6 +23,7 @@ type Req struct {
 	Id      int               `json:"id"`
 	Op      string            `json:"op"`
 	Text    string            `json:"text"`
+	B64     string            `json:"b64"` // text as base64 (arbitrary bytes); overrides Text
 	Defs    []json.RawMessage `json:"defs"`    // [{name, t}]
 	Queries [][2]json.RawMessage `json:"queries"` // pairs of types
 	Types   []json.RawMessage `json:"types"`
@@ -155,6 +157,11 @@ func modesTable() map[string]interface{} {
 
 func handle(rq Req) (resp map[string]interface{}) {
 	resp = map[string]interface{}{"id": rq.Id}
+	if rq.B64 != "" {
+		if b, err := base64.StdEncoding.DecodeString(rq.B64); err == nil {
+			rq.Text = string(b)
+		}
+	}
 	switch rq.Op {
 	case "ping":
 		resp["pong"] = true
@@ -230,9 +237,24 @@ func handle(rq Req) (resp map[string]interface{}) {
 			resp["dump"] = process.VerifDumpProgram(procs, genv)
 		}
 	case "parse":
+		t0 := time.Now()
 		procs, assumed, genv, err := parser.ParseString(rq.Text)
+		resp["us"] = time.Since(t0).Microseconds()
 		resp["parse"] = errStr(err)
 		if err == nil {
+			var pn, fn, tn []string
+			for _, p := range procs {
+				for _, n := range p.Providers {
+					pn = append(pn, n.Ident)
+				}
+			}
+			for _, f := range *genv.FunctionDefinitions {
+				fn = append(fn, f.FunctionName)
+			}
+			for _, t := range *genv.Types {
+				tn = append(tn, t.Name)
+			}
+			resp["procnames"], resp["funcnames"], resp["typenames"] = pn, fn, tn
 			resp["nprocs"], resp["nfuncs"], resp["ntypes"], resp["nassumed"] = len(procs), len(*genv.FunctionDefinitions), len(*genv.Types), len(assumed)
 			if rq.Dump {
 				resp["dump"] = process.VerifDumpProgram(procs, genv)
